@@ -67,6 +67,9 @@ def gen_network(rng, max_units, force=None):
                 layers.append({"t": "leaky", "row": r, "alpha": rng.choice([FR(0), FR(1, 4), FR(1, 2), FR(2), FR(-1)])})
             else:
                 layers.append({"t": a, "row": r})
+            if rng.random() < 0.12 and units < max_units:
+                layers.append(dict(layers[-1]))      # the same neuron activated twice in a row (not idempotent for leaky / hard sigmoid)
+                units += 1
     head = rng.choice(["argmax", "classchar"] if force == "bare" else ["none", "none", "argmax", "classchar"])
     if dim >= 2 and head == "argmax":
         layers.append({"t": "argmax"})
